@@ -64,10 +64,11 @@ def _rewrite_calls(s, pat, fn, log, rule):
             i = p
             continue
         q = cxx.match_bracket(s, p, '(', ')')
-        rep = fn(m, s[p + 1:q - 1])
+        inner = _rewrite_calls(s[p + 1:q - 1], pat, fn, log, rule)     # nested calls inside the argument list
+        rep = fn(m, inner)
         if rep is None:
-            out.append(s[i:p])
-            i = p
+            out.append(s[i:p] + '(' + inner + ')')
+            i = q
             continue
         out.append(s[i:m.start()])
         out.append(rep)
@@ -146,6 +147,12 @@ def lower_body(body, cls=None, methods=(), members=(), objs=None, ptr_objs=None,
                 a = _split_args(args)
                 key = (name, len(a))
                 cname = overloads.get((c + '::' + name, len(a)))
+                if cname is None and c == 'IMS' and name == 'read' and not targ and len(a) == 1:
+                    return 'IMS_read_obj(%s%s, &(%s), sizeof(%s))' % (addr, v, a[0], a[0])
+                if cname is None and c == 'IMS' and name == 'read' and not targ and len(a) == 2:
+                    return 'IMS_read_buf(%s%s, %s, %s)' % (addr, v, a[0], a[1])
+                if cname is None and c == 'IMS' and name == 'size' and len(a) == 1:
+                    return 'IMS_size_set(%s%s, %s)' % (addr, v, a[0])
                 if cname is None:
                     cname = '%s_%s' % (c, name)
                     if targ:
@@ -170,22 +177,31 @@ def lower_body(body, cls=None, methods=(), members=(), objs=None, ptr_objs=None,
             b = _rewrite_calls(b, r'(?<![\w>.:])(?<!->)\b' + link + r'\s*\(\s*\)\s*->\s*(\w+)\s*(?=\()',
                                lambda m, a, mac=mac: 'PDU_v_%s(%s(this)%s)' % (m.group(1), mac, (', ' + a) if a.strip() else ''), log, 'R11 virtual call')
             b = _sub(log, 'R1 link', r'(?<![\w>.:])(?<!->)\b' + link + r'\s*\(\s*\)', mac + '(this)', b)
+        # inner_pdu(x): the re-linking setter (its own contract is under C12)
+        b = _rewrite_calls(b, r'(?<![\w>.:])(?<!->)\binner_pdu\s*(?=\()',
+                           lambda m, a: ('PDU_set_inner(&this->pdu_base_, %s)' % a) if a.strip() else None, log, 'R1 inner_pdu(x)')
         # R1 own methods
         def own(m, args):
             name = m.group(1)
             if name not in methods:
                 return None
             a = _split_args(args)
-            cname = overloads.get((name, len(a))) or ('%s_%s' % (cls, name))
+            cname = overloads.get((name, len(a))) or ('%s_%s' % (KNOWN_CLASSES.get(cls, cls), name))
             return '%s(this%s)' % (cname, (', ' + args) if args.strip() else '')
         b = _rewrite_calls(b, r'(?<![\w>.:])(?<!->)\b([a-z_]\w*)\s*(?=\()', own, log, 'R1 own method')
-        b = _sub(log, 'R1 this->method', r'\bthis->(\w+)\s*\(\s*\)', lambda m: '%s_%s(this)' % (cls, m.group(1)) if m.group(1) in methods else m.group(0), b)
+        b = _sub(log, 'R1 this->method', r'\bthis->(\w+)\s*\(\s*\)', lambda m: '%s_%s(this)' % (KNOWN_CLASSES.get(cls, cls), m.group(1)) if m.group(1) in methods else m.group(0), b)
 
     # R7 new / delete
     b = _rewrite_calls(b, r'\bnew\s+(?:Tins::)?([\w:]+)\s*(?=\()', lambda m, a: 'new_%s(%s)' % (m.group(1).replace('::', '_'), a), log, 'R7 new')
     b = _sub(log, 'R7 delete', r'\bdelete\s+([\w>.\-]+)\s*;', r'TINS_DELETE(\1);', b)
     # R3 remaining scope operators on calls: Internals::f<...>(  Utils::f(
     b = _sub(log, 'R3 ns call', r'\b(Internals|Utils|Converters|Crypto)::(\w+)\s*(?:<\s*[\w:]+\s*>)?\s*\(', r'\1_\2(', b)
+    # libtins idioms that are pure qualification
+    b = _sub(log, 'R3 Constants enum cast', r'\(\s*Constants::\w+::e\s*\)', '(int)', b)
+    b = _sub(log, 'R3 PDU:: enumerator', r'\bPDU::([A-Z][A-Z0-9_]+)\b', r'PT_\1', b)
+    # arity-overloaded free functions
+    b = _rewrite_calls(b, r'\bInternals_pdu_from_flag\s*(?=\()',
+                       lambda m, a: ('Internals_pdu_from_flag4(%s)' % a) if len(_split_args(a)) == 4 else None, log, 'R2 arity overload')
     # C++ keywords / literals
     b = _sub(log, 'R3 nullptr', r'\bnullptr\b', 'NULL', b)
     return b, log
